@@ -212,7 +212,7 @@ def fan_event(ev):
         if e in ("lock", "unlock") and ev[2] == "tc":
             return [th, e]
         if e in ("signal", "broadcast") and ev[2] == "tc":
-            return [th, "signal"]       # the dispatcher is the only waiter on threadcount_cond: the two are the same
+            return [th, e]              # which call it was is passed on: the acceptor decides what it stands for
         return None
     if th in ("G", "Z", "-"):
         # watchdog / signals thread / clock: outside the Fan model unless they touch the protocol objects
@@ -220,6 +220,27 @@ def fan_event(ev):
             return [th, e]          # unknown to the acceptor -> reject (C20's model covers these)
         return None
     return None
+
+
+def discipline(res):
+    """The signalling discipline the code under test USES, read off what its workers did (wrapped calls on
+    threadcount_cond / threadcount_mutex between a worker's lock and its end): set of (call, place) with call in
+    {signal, broadcast} and place in {inside, after} the critical section."""
+    seen = set()
+    holding = {}
+    unlocked = set()
+    for _, ev in res["steps"]:
+        if len(ev) < 3 or not ev[0].startswith("W") or ev[2] != "tc":
+            continue
+        w, e = ev[0], ev[1]
+        if e == "lock":
+            holding[w] = True
+        elif e == "unlock":
+            holding[w] = False
+            unlocked.add(w)
+        elif e in ("signal", "broadcast"):
+            seen.add((e, "inside" if holding.get(w) else "after" if w in unlocked else "outside"))
+    return seen
 
 
 def fan_filter(names):
